@@ -264,6 +264,154 @@ def textmut_cases(draw, types):
     return case
 
 
+# ---------------------------------------------------------------------------
+# equivalent spellings of the same value (text the library did not produce) must parse to an
+# equal record: quoted strings with any mix of literal / \\DDD spellings, names with \\DDD
+# labels, trailing hex/base64 fields in other chunkings and (hex) upper case
+
+_NAME_TOKENS = {"NS": [0], "CNAME": [0], "PTR": [0], "DNAME": [0], "NSAP_PTR": [0], "MX": [1], "AFSDB": [1], "RT": [1], "KX": [1],
+                "LP": [1], "SRV": [3], "SOA": [0, 1], "RP": [0, 1], "PX": [1, 2], "NAPTR": [5], "NSEC": [0], "DSYNC": [3], "CH_A": [0]}
+_TRAILING_HEX = {"DS", "CDS", "DLV", "TLSA", "SMIMEA", "SSHFP", "ZONEMD"}
+_TRAILING_B64 = {"DNSKEY", "CDNSKEY", "RRSIG", "SIG", "CERT", "OPENPGPKEY", "DHCID", "HHIT", "BRID"}
+
+
+def _split_tokens(text):
+    """split the library's own output into tokens; quoted strings come back as bytes"""
+    toks = []
+    i = 0
+    n = len(text)
+    while i < n:
+        if text[i] == " ":
+            i += 1
+            continue
+        if text[i] == '"':
+            i += 1
+            b = bytearray()
+            while text[i] != '"':
+                if text[i] == "\\":
+                    if text[i + 1].isdigit():
+                        b.append(int(text[i + 1 : i + 4]))
+                        i += 4
+                    else:
+                        b += text[i + 1].encode("latin1")
+                        i += 2
+                else:
+                    b += text[i].encode("utf-8")
+                    i += 1
+            i += 1
+            toks.append(bytes(b))
+        else:
+            j = i
+            while j < n and text[j] != " ":
+                j += 2 if text[j] == "\\" and not text[j + 1 : j + 2].isdigit() else 1
+            toks.append(text[i:j])
+            i = j
+    return toks
+
+
+def _spell_quoted(b, choices):
+    out = ['"']
+    for k, c in enumerate(b):
+        esc = choices[k % len(choices)]
+        if c in (0x22, 0x5C):
+            out.append("\\" + chr(c) if esc % 2 == 0 else "\\%03d" % c)
+        elif 0x20 <= c < 0x7F and esc % 3 != 0:
+            out.append(chr(c))
+        else:
+            out.append("\\%03d" % c)
+    out.append('"')
+    return "".join(out)
+
+
+def _spell_name(tok, choices):
+    """re-spell a name token produced by the library: some literal characters become \\DDD"""
+    if tok in ("@", "."):
+        return tok
+    out = []
+    i = 0
+    k = 0
+    while i < len(tok):
+        ch = tok[i]
+        if ch == "\\":
+            if tok[i + 1].isdigit():
+                out.append(tok[i : i + 4])
+                i += 4
+            else:
+                out.append("\\%03d" % ord(tok[i + 1]) if choices[k % len(choices)] % 2 else tok[i : i + 2])
+                i += 2
+        elif ch == ".":
+            out.append(ch)
+            i += 1
+        else:
+            out.append("\\%03d" % ord(ch) if choices[k % len(choices)] % 4 == 0 else ch)
+            i += 1
+        k += 1
+    return "".join(out)
+
+
+def run_respell(case):
+    import dns.exception
+    import dns.rdata
+
+    w = bytes.fromhex(case["wire"])
+    rdclass, rdtype, tname = case["rdclass"], case["rdtype"], case["type"]
+    if "text-lossy" in case["flags"]:
+        return {"nontrivial": False, "classes": ["text-lossy"]}
+    try:
+        rd = dns.rdata.from_wire(rdclass, rdtype, w, 0, len(w))
+    except dns.exception.FormError:
+        return {"nontrivial": False, "classes": ["rej:" + tname]}
+    text = rd.to_text()
+    try:
+        toks = _split_tokens(text)
+    except (IndexError, ValueError):
+        return {"nontrivial": False, "classes": ["untokenizable"]}
+    ch = case["choices"]
+    classes = []
+    out = []
+    changed = False
+    for i, t in enumerate(toks):
+        if isinstance(t, bytes):
+            s = _spell_quoted(t, ch)
+            classes.append("quoted")
+        elif i in _NAME_TOKENS.get(tname, ()):
+            s = _spell_name(t, ch)
+            classes.append("name")
+        else:
+            s = t
+        out.append(s)
+    last_from = None
+    if tname in _TRAILING_HEX | _TRAILING_B64 and toks and not isinstance(toks[-1], bytes):
+        # find the start of the trailing blob (the library prints it in chunks)
+        fixed = {"DS": 3, "CDS": 3, "DLV": 3, "TLSA": 3, "SMIMEA": 3, "SSHFP": 2, "ZONEMD": 3, "DNSKEY": 3, "CDNSKEY": 3, "RRSIG": 8, "SIG": 8,
+                 "CERT": 3, "OPENPGPKEY": 0, "DHCID": 0, "HHIT": 0, "BRID": 0}[tname]
+        blob = "".join(out[fixed:])
+        if blob:
+            if tname in _TRAILING_HEX and ch[0] % 2:
+                blob = blob.upper()
+            k = 1 + ch[1] % 7
+            out = out[:fixed] + [blob[j : j + k] for j in range(0, len(blob), k)]
+            classes.append("rechunked")
+    new = " ".join(out)
+    if new == text:
+        return {"nontrivial": False, "classes": ["unchanged"]}
+    try:
+        back = dns.rdata.from_text(rdclass, rdtype, new)
+    except Exception as e:
+        raise Violation("respell", f"{tname}: equivalent spelling {new[:200]!r} of {text[:200]!r} does not parse: {type(e).__name__}: {e}", f"respell-parse:{tname}")
+    if back != rd or back.to_wire() != rd.to_wire():
+        raise Violation("respell", f"{tname}: equivalent spelling {new[:200]!r} of {text[:200]!r} parses to a different record: {back.to_wire().hex()} vs {rd.to_wire().hex()}", f"respell-differs:{tname}")
+    return {"nontrivial": True, "classes": sorted(set(classes)) + ["respelled"]}
+
+
+@st.composite
+def respell_cases(draw, types):
+    tname = R.type_choice(draw, types)
+    case = draw(R.record(ctx={}, name=tname))
+    case["choices"] = draw(st.lists(st.integers(0, 11), min_size=2, max_size=12))
+    return case
+
+
 @st.composite
 def unknown_cases(draw):
     case = draw(R.unknown_record())
@@ -286,6 +434,9 @@ def parts(tier):
              require=req, shards={"quick": 16, "thorough": 16}),
         Part("unknown", run, strategy=unknown_cases(), n={"quick": 1500, "thorough": 30000},
              shards={"quick": 2, "thorough": 4}),
+        Part("respell", run_respell, strategy=respell_cases(sorted(set(_NAME_TOKENS) | _TRAILING_HEX | _TRAILING_B64 | {"TXT", "SPF", "HINFO", "X25", "ISDN", "CAA", "URI", "NAPTR", "AVC", "WALLET", "NINFO", "RESINFO", "GPOS"})),
+             n={"quick": 6000, "thorough": 200000}, require={"quoted": 500, "name": 500, "rechunked": 300, "respelled": 2000},
+             shards={"quick": 8, "thorough": 16}),
         Part("textmut", run_textmut, strategy=textmut_cases(TEXT_TYPES), n={"quick": 300 * n_types, "thorough": 4000 * n_types},
              require={"mut-accepted": 2000, "mut-rejected": 2000}, shards={"quick": 16, "thorough": 16}),
     ]
